@@ -1,46 +1,33 @@
 #!/usr/bin/env python3
-"""Regenerates /verif/MANIFEST.json from the table below (run after adding a property)."""
+"""Regenerates /verif/MANIFEST.json.  A property is claimed iff harness/props/<id>.py defines MANIFEST
+(design_ref, text, note, technique[, category]) and coq/theories/Properties/<ID>.v exists; every other property is
+listed under not_applicable with the reason in NOT_CLAIMED (or the default)."""
+import importlib
 import json
 import os
+import sys
 
 VERIF = os.path.dirname(os.path.dirname(os.path.abspath(__file__)))
+sys.path.insert(0, os.path.join(VERIF, "harness"))
 PY = "/venv/bin/python"
 
-# id -> (design section, level text, level note, technique)
-CLAIMED = {
-    "C16": ("6/C16",
-            "Coq theorems over all integer instants (window exactness, day cover, nothing outside, distinct folders; "
-            "legacy defect refuted with a witness) about a hand-written model of _get_id_prefixes + the last-modified "
-            "predicate; model tied to /repo on every run by running the real S3TapeCassette (fake bucket, fake clock) "
-            "and the model on the same window grid + random instants; direct predicate on the implementation searches "
-            "for a failing window.",
-            "Trusted: Coq kernel + vm_compute; hand-written model; correspondence harness (fake bucket behind the real "
-            "S3BasicFacade, fake clock); strftime day formatting and 'process clock is UTC' are assumptions.",
-            "Coq proof (lia over Z) + model/implementation correspondence by vm_compute"),
-}
-
-CLAIMED["C14"] = (
-    "6/C14",
-    "Coq theorems for every filter and every recorded value (match_value = Ans (match_spec), hence never raises; lifted "
-    "to the per-key conjunction; legacy TypeError witnesses refuted) over a hand-written model of _match_metadata_value / "
-    "_operator_filter / match_against_recorded_metadata, for every fnmatch oracle; model tied to /repo on every run by "
-    "an exhaustive small universe (~9k filter x value pairs) + random deeper pairs evaluated by the real matcher and by "
-    "the model; direct predicate (never raises, equals the documented meaning, deterministic) on the implementation.",
-    "Trusted: Coq kernel + vm_compute; hand-written model of Python ==/</<= on the metadata value domain (exact "
-    "rationals for floats); fnmatch is an oracle (section variable); correspondence harness.",
-    "Coq proof (structural induction over filters) + exhaustive small-universe correspondence by vm_compute")
-
-NOT_YET = {}
+NOT_CLAIMED = {}
+DEFAULT_REASON = ("not claimed: the Coq model, theorems and correspondence check for this property are not built yet "
+                  "(DESIGN.md section 6 describes the plan); nothing is asserted about it")
 
 
 def main():
     props = [json.loads(l) for l in open(os.path.join(VERIF, "properties.jsonl"))]
-    checks = []
-    na = []
+    checks, na, claimed = [], [], []
     for p in props:
         pid = p["id"]
-        if pid in CLAIMED:
-            sec, text, note, tech = CLAIMED[pid]
+        entry = None
+        if os.path.exists(os.path.join(VERIF, "harness", "props", pid.lower() + ".py")) and \
+                os.path.exists(os.path.join(VERIF, "coq", "theories", "Properties", pid + ".v")):
+            mod = importlib.import_module("props." + pid.lower())
+            entry = getattr(mod, "MANIFEST", None)
+        if entry:
+            claimed.append(pid)
             checks.append(dict(
                 property_id=pid,
                 quick_cmd="%s harness/vp.py check %s --tier quick" % (PY, pid),
@@ -48,12 +35,11 @@ def main():
                 evidence_file="/verif/evidence/%s.json" % pid,
                 replay_cmd_template="%s harness/vp.py check %s --replay {path}" % (PY, pid),
                 engine="coq-correspondence",
-                level_claimed=dict(category="proof", text=text, design_ref="DESIGN.md section " + sec),
-                level_note=note, technique=tech))
+                level_claimed=dict(category=entry.get("category", "proof"), text=entry["text"],
+                                   design_ref="DESIGN.md section " + entry["design_ref"]),
+                level_note=entry["note"], technique=entry["technique"]))
         else:
-            na.append(dict(property_id=pid, reason=NOT_YET.get(
-                pid, "not claimed yet: the Coq model, theorems and correspondence check for this property are not "
-                     "built in this round (DESIGN.md section 6 describes the plan); nothing is asserted about it")))
+            na.append(dict(property_id=pid, reason=NOT_CLAIMED.get(pid, DEFAULT_REASON)))
     man = dict(
         version=1,
         setup_cmd="%s harness/setup.py" % PY,
@@ -64,7 +50,7 @@ def main():
                                     "--continue-on-collection-errors",
                    source_commits=[], add_only=True),
         engines=[dict(name="coq-correspondence", path="/verif/harness/vp.py",
-                      serves_properties=sorted(CLAIMED),
+                      serves_properties=claimed,
                       kind_free_text="Coq 8.16.1 theorems about hand-written executable Gallina models (coq/theories); "
                                      "each run rebuilds the proofs, re-reads Print Assumptions, runs the real "
                                      "implementation from /repo's working tree and the model (vm_compute) on the same "
@@ -75,7 +61,7 @@ def main():
               "/verif/seeded/. See DESIGN.md.",
         not_applicable=na)
     json.dump(man, open(os.path.join(VERIF, "MANIFEST.json"), "w"), indent=1)
-    print("claimed:", sorted(CLAIMED), "not claimed:", [x["property_id"] for x in na])
+    print("claimed:", claimed, "not claimed:", [x["property_id"] for x in na])
 
 
 if __name__ == "__main__":
